@@ -25,7 +25,7 @@ RULE = ("random walks on {whitespace, keep-chain, include-header, pdb-output, ap
 ASSUMPTIONS = ["'byte-identical' is judged on the numeric token text of the PQR atom lines (fixed columns or tokens)",
                "a terminus counts as 'actually neutralised' when the atoms of the two outputs show the lost amine "
                "hydrogen (N) or the gained HO (C)"]
-MIN = {"quick": {"pairs_compared": 350, "dropwater_pairs": 15, "neutral_pairs": 22, "ffout_pairs": 60, "dropwater_colliding_numbering": 4, "neutral_pairs_pka_route": 5},
+MIN = {"quick": {"pairs_compared": 350, "dropwater_pairs": 15, "neutral_pairs": 22, "ffout_pairs": 60, "dropwater_colliding_numbering": 4, "neutral_pairs_pka_route": 3},
        "thorough": {"pairs_compared": 12000, "dropwater_pairs": 800, "neutral_pairs": 700, "ffout_pairs": 2000, "dropwater_colliding_numbering": 400, "neutral_pairs_pka_route": 400}}
 FLAGS = ["whitespace", "keepchain", "header", "pdbout", "apbs", "ffout"]
 
@@ -42,7 +42,7 @@ def cases(tier, seed):
     for i in range(nd):
         out.append({"kind": "dropwater", "w": "frag" if i % 3 == 0 else "synth", "seed": seed * 13001 + i,
                     "ff": common.FFS[i % 6], "p": {"maxlen": 6, "waters": [2, 4, 7], "na_prob": 0.1}})
-    nn = 36 if tier == "quick" else 4000
+    nn = 48 if tier == "quick" else 4000
     for i in range(nn):
         if i % 4 == 3:
             # chain ends hidden inside one chain id (two peptides, no TER, the first ends in OXT)
